@@ -1,0 +1,13 @@
+//go:build verif
+
+package clightning
+
+import "github.com/elementsproject/glightning/glightning"
+
+// This file is compiled only with the "verif" build tag. It exports the
+// unexported route builder so that an external monitor can sweep it.
+
+// VerifBuildDirectClaimRoute calls buildDirectClaimRoute.
+func VerifBuildDirectClaimRoute(bolt11 *glightning.DecodedBolt11, scid string, maxTotalCLTVDelta uint32) ([]glightning.RouteHop, error) {
+	return buildDirectClaimRoute(bolt11, scid, maxTotalCLTVDelta)
+}
